@@ -29,6 +29,7 @@ def required_cells(tier):
     req = {}
     req["shape:3x4/consistent"] = 100
     req["input:identical-rows-share-one-list"] = 50
+    req["entries:wide-range"] = 5000
     for r, c, _ in (SHAPES_Q if tier == "quick" else SHAPES_T):
         for st in ("consistent", "inconsistent"):
             req["shape:%dx%d/%s" % (r, c, st)] = 2
@@ -53,6 +54,16 @@ def cases(rng, budget, widx, nworkers, tier):
                 yield {"m": [list(flat[i * c:(i + 1) * c]) for i in range(r)], "t": "Fraction", "alias": True}
             if idx % 3 == 0:
                 yield {"m": [list(flat[i * c:(i + 1) * c]) for i in range(r)], "t": ("int", "float")[(idx // 3) % 2]}
+    # sampled systems with larger integer and half-integer entries (non-dyadic pivots: thirds, fifths, sevenths)
+    for _ in range((40000 if tier == "thorough" else 10000) // nworkers):
+        rws, cls = rng.choice(((2, 3), (2, 4), (3, 3), (3, 4), (3, 4)))
+        big = rng.choice((3, 5, 7))
+        if rng.random() < 0.35:
+            m = [[rng.randint(-2 * big, 2 * big) / 2.0 for _ in range(cls)] for _ in range(rws)]
+            yield {"m": m, "t": "float", "sampled": "wide"}
+        else:
+            m = [[rng.randint(-big, big) for _ in range(cls)] for _ in range(rws)]
+            yield {"m": m, "t": rng.choice(("int", "int", "float", "Fraction")), "sampled": "wide"}
     # sampled 3x4 systems, half of them with zero columns forced (where pivots have to skip columns)
     for _ in range((20000 if tier == "thorough" else 12000) // nworkers):
         m = [[rng.randint(-2, 2) for _ in range(4)] for _ in range(3)]
@@ -117,6 +128,8 @@ def judge(case):
     mu = core.Multi()
     shape = "%dx%d" % (nrows, ncols)
     mu.cell("shape:%s/%s" % (shape, "consistent" if consistent else "inconsistent"), "type:" + t)
+    if case.get("sampled") == "wide":
+        mu.cell("entries:wide-range")
     if all(row[0] == 0 for row in m) and any(any(x != 0 for x in row) for row in m):
         mu.cell("shape:%s/zero-leading-column" % shape)
     if consistent and rA < min(nrows, n):
